@@ -20,8 +20,10 @@ let () =
   iter_cases Sys.argv.(1) (fun line ->
     match split_on '|' line with
     | [mal; body] ->
-      let p = { pg_mal = (match mal with "ok" -> WellFormed | "unbound" -> UnboundVariable | _ -> SyntaxError);
+      let p = { pg_mal = (if mal = "ok" then WellFormed
+                         else if String.length mal >= 7 && String.sub mal 0 7 = "unbound" then UnboundVariable
+                         else SyntaxError);
                 pg_funcs = List.map parse_func (split_on '/' body) } in
       let a = accept true p in
-      Printf.sprintf "accept=%d overflow=0 det=1" (if a then 1 else 0)
+      Printf.sprintf "accept=%d overflow=0 det=1 undiag=0" (if a then 1 else 0)
     | _ -> "<bad case>")
